@@ -1,14 +1,15 @@
 #!/bin/bash
+REPO=${REPO:-/repo}; export PZ_REPO=$REPO   # the batteries may be pointed at a scratch clone (REPO=/tmp/x PZ_CACHE=/tmp/y); the registered checks always use /repo
 # Behaviour-preserving edits: every registered quick check must stay silent with each applied.  /repo must be clean.
-if [ -n "$(git -C /repo status --porcelain)" ]; then echo "REPO DIRTY - refusing"; exit 3; fi
+if [ -n "$(git -C $REPO status --porcelain)" ]; then echo "REPO DIRTY - refusing"; exit 3; fi
 cd /verif
 rc=0
 PROPLIST=${PROPS:-C01 C02 C03 C04 C05 C06 C07 C08 C09 C10 C11 C12 C13 C14 C15 C16 C17 C18 C19 C20}
 for d in ${ONLY:-selftest/benign/*.diff}; do
   id=$(basename $d .diff)
-  if ! git -C /repo apply --check $PWD/$d 2>/dev/null; then echo "$id patch-does-not-apply"; rc=1; continue; fi
-  git -C /repo apply $PWD/$d
-  if ! (cd /repo && cargo check --offline -q -p poulpy-hal -p poulpy-core -p poulpy-cpu-ref -p poulpy-ckks -p poulpy-bin-fhe 2>/dev/null); then echo "$id DOES-NOT-COMPILE"; git -C /repo checkout -- .; rc=1; continue; fi
+  if ! git -C $REPO apply --check $PWD/$d 2>/dev/null; then echo "$id patch-does-not-apply"; rc=1; continue; fi
+  git -C $REPO apply $PWD/$d
+  if ! (cd $REPO && cargo check --offline -q -p poulpy-hal -p poulpy-core -p poulpy-cpu-ref -p poulpy-ckks -p poulpy-bin-fhe 2>/dev/null); then echo "$id DOES-NOT-COMPILE"; git -C $REPO checkout -- .; rc=1; continue; fi
   # the first check rebuilds the facts for the patched tree; the others then run in parallel on the cached facts
   first=$(echo $PROPLIST | cut -d' ' -f1)
   tmp=$(mktemp -d)
@@ -20,7 +21,7 @@ for d in ${ONLY:-selftest/benign/*.diff}; do
   done
   rm -rf $tmp
   if [ -z "$alarms" ]; then echo "$id silent"; else echo "$id FALSE-ALARM:$alarms"; rc=1; fi
-  git -C /repo checkout -- .
+  git -C $REPO checkout -- .
 done
 git -C /verif checkout -- evidence
 exit $rc
